@@ -24,7 +24,7 @@ from .. import common
 THEOREMS = ["Pt.gen_deterministic", "Pt.genMany_deterministic"]
 
 
-def run_children(ctx, seed, indices, hashseeds):
+def run_children(ctx, seed, indices, hashseeds, multi=()):
     procs = []
     for hs in hashseeds:
         sc = ctx.scratch / f"child{hs}"
@@ -36,7 +36,8 @@ def run_children(ctx, seed, indices, hashseeds):
         env["PYTHONWARNINGS"] = "ignore"
         env["PYTATO_REPO"] = str(common.REPO)
         p = subprocess.Popen([sys.executable, "-m", "harness.child_c17", str(seed), str(out), str(hs * 2),
-                              ",".join(map(str, indices))], cwd=str(common.VERIF), env=env,
+                              ",".join(map(str, indices)), ",".join(map(str, multi))],
+                             cwd=str(common.VERIF), env=env,
                              stdout=subprocess.PIPE, stderr=subprocess.STDOUT, text=True)
         procs.append((hs, p, out))
     res = {}
@@ -66,14 +67,23 @@ def run(ctx: common.Ctx):
     hashseeds = list(range(0, 12)) if ctx.thorough else [0, 1, 2, 3, 4, 5]
     # spread programs over several children per hash seed to use the cores
     indices = list(range(nprog))
-    res = run_children(ctx, ctx.seed + 1700, indices, hashseeds)
+    # multi-output programs whose outputs are sub-expressions of other outputs (gen/multiout.py)
+    from ..gen import multiout
+    nmulti = multiout.COUNT if ctx.thorough else 30
+    step = max(1, multiout.COUNT // nmulti)
+    multi = [(j * step + ctx.seed) % multiout.COUNT + (ctx.seed % 2) * multiout.COUNT for j in range(nmulti)]
+    multi = sorted(set(multi))
+    res = run_children(ctx, ctx.seed + 1700, indices, hashseeds, multi)
     dis = 0
+    mdis = 0
     base = res[hashseeds[0]]
     fields = {"dump": "loopy kernel (canonical dump)", "cl": "OpenCL source", "py": "Python source",
               "key": "persistent key", "bound_names": "bound argument names", "py_expected": "expected arguments",
+              "arg_order": "kernel argument order",
               "loopy_error": "loopy error class", "py_error": "python target error class", "cl_error": "cl error"}
     compared = {f: 0 for f in fields}
-    for i in indices:
+    for i in indices + [f"m{j}" for j in multi]:
+        dis0 = dis
         b = base[str(i)]
         if "error" in b:
             ctx.broken.append(f"c17-child:{b['error'][:80]}")
@@ -104,10 +114,20 @@ def run(ctx: common.Ctx):
                                   f"program {i}: {what} differs between PYTHONHASHSEED={hashseeds[0]} and {hs}: {d}",
                                   {"program_index": i, "seed": ctx.seed + 1700, "hash_seeds": [hashseeds[0], hs],
                                    "first_difference": d})
-        if i % 12 == 0:
+        if isinstance(i, str):
+            mdis += dis - dis0
+            if int(i[1:]) % 9 == 0:
+                ctx.sample({"batch": "seed-sweep-multi-output", "program": i, "what": multiout.describe(int(i[1:])),
+                            "arg_order": b.get("arg_order")})
+        elif i % 12 == 0:
             ctx.sample({"batch": "seed-sweep", "program": i, "artefacts": sorted(k for k in b if k in fields)})
-    ctx.note_batch("hash-seed-sweep(codegen)", nprog * (len(hashseeds) - 1), dis, exhaustive=False,
+    ctx.note_batch("hash-seed-sweep(codegen)", nprog * (len(hashseeds) - 1), dis - mdis, exhaustive=False,
                    programs=nprog, hash_seeds=hashseeds, artefacts_compared=compared)
+    ctx.note_batch("hash-seed-sweep(multi-output codegen)", len(multi) * (len(hashseeds) - 1), mdis, exhaustive=False,
+                   programs=len(multi), hash_seeds=hashseeds,
+                   how="k independent outputs + outputs combining several of them (total / pairs / users of "
+                       "users), 4 naming schemes, both dict orders (harness/gen/multiout.py); program 'm<j>' = "
+                       "multiout.generate(j)")
     try:
         from . import c17_dist
     except ImportError:
